@@ -164,7 +164,7 @@ PadTo(h, v, n) == IF Len(h) >= n THEN h ELSE PadTo(Append(h, v), v, n)
 ConstVec(a) == [b \in 1..NB(Mode) |-> a]
 PadVals(s) == {INF, s.chi2min} \cup {CHOOSE m \in Vals : \A e \in Vals : m <= e}
 Record(h, pad) == LET full == PadTo(h, ConstVec(pad), Niter) IN
-                  [hist |-> full, len |-> Len(h), ans |-> Answer(Par, Run(Par, full))]
+                  [hist |-> full, len |-> Len(h), signtable |-> SignTable(Mode), ans |-> Answer(Par, Run(Par, full))]
 HNext == /\ ~st.done
          /\ \E v \in Vecs :
               /\ st' = Step(Par, st, v) /\ hist' = Append(hist, v) /\ gh' = gh
